@@ -563,6 +563,14 @@ impl<A: Address> Net<A> {
     }
 }
 
+#[cfg(feature = "libtw2_verif")]
+impl<A: Address> Net<A> {
+    /// Verification hook: set the counter that fresh peer IDs are taken from.
+    pub fn verif_set_next_peer_id(&mut self, id: u32) {
+        self.peers.next_peer_id = PeerId(id);
+    }
+}
+
 pub struct Tick<'a, A: Address + 'a, CB: Callback<A> + 'a> {
     iter_mut: peer_map::IterMut<'a, Peer<A>>,
     cb: &'a mut CB,
